@@ -1,7 +1,7 @@
 """C19  Line breaking and justification never corrupt the glyph stream.
 
 Hypothesis: a segment (shipped or synthesised font, text with spaces, dir 0..7, with or without a gr_font) is kept alive
-through grdrv's history command, cut into lines with gr_slot_linebreak_before at cluster boundaries, and every line is
+through grdrv's history command, cut into lines with gr_slot_linebreak_before (at cluster boundaries, or at any interior slots), and every line is
 passed 1..3 times to gr_seg_justify (width in {-1, 0, natural x {0.5, 1, 2}, 1e6}, flags 0..3, first/last sub-range NULL
 or slots of that line).  After every call: it returned (watchdog, confirmed), every line walked by next from its first
 slot holds the same slots in the same order as before with prev the exact inverse, origins and the returned width are
@@ -14,11 +14,11 @@ import fonts, cases, sfnt
 
 PROP = 'C19'
 VARIANTS = ['asan-direct']
-RULE = ('Hypothesis: (font, text <= 32 with spaces, dir 0..7, enc, ppm incl. a hinted font) -> segment; 1 synthesised font in 3 has line-end contextuals (Silf flags bit 0, lbGID); break positions: any subset of the cluster boundaries; per line 1..3 justify calls with generated '
+RULE = ('Hypothesis: (font, text <= 32 with spaces, dir 0..7, enc, ppm incl. a hinted font) -> segment; 1 synthesised font in 3 has line-end contextuals (Silf flags bit 0, lbGID); break positions: any subset of the cluster boundaries (2 cases in 3) or of ALL interior slots, also inside clusters and in front of attached slots (1 case in 3); per line 1..3 justify calls with generated '
         '(width, flags, font, pFirst <= pLast on that line or NULL). Oracle: line chains unchanged (same slots, same order, prev inverse, line start has no prev), finite origins and width, '
         'gids unchanged when the font has no justification pass, no sanitizer report, every call returns. Non-trivial: >= 2 lines and a justify on a non-first line, or the text direction '
         'differs from the font direction. Known finding KF2 (direction mismatch with >= 2 lines) excluded by construction and counted. Distinct by case JSON.')
-ASSUME = ['breaks only at cluster boundaries (a line starts with a base slot and clusters are not split)', 'pFirst/pLast are slots of the line being justified', 'a call exceeding the 8 s watchdog is re-run 3x alone (40 s limit, fresh process) before being reported as does-not-return']
+ASSUME = ['pFirst/pLast are slots of the line being justified', 'a call exceeding the 8 s watchdog is re-run 3x alone (40 s limit, fresh process) before being reported as does-not-return']
 
 
 def fl(h):
@@ -222,6 +222,7 @@ def worker(ctx):
                 # "line end contextuals" (Silf flags bit 0): justify brackets the line with two marker slots of glyph lbGID
                 base['spec'] = dict(base['spec'], silf_flags=base['spec'].get('silf_flags', 0) | 1, lbgid=data.draw(st.integers(0, len(base['spec']['glyphs']) - 1)))
             bsel = data.draw(st.lists(st.integers(0, 999), max_size=4))
+            any_slot = data.draw(st.integers(0, 2)) == 0 or bool(os.environ.get('C19_ANY_BREAK'))
             jsel = data.draw(st.lists(st.tuples(st.integers(0, 999), st.integers(0, 6), st.integers(0, 3), st.booleans(), st.integers(0, 2), st.integers(0, 999), st.integers(0, 999)), max_size=8))
             opts = data.draw(st.sampled_from([0, 2, 6]))
             if ctx.abort_chunk:
@@ -242,6 +243,9 @@ def worker(ctx):
             dump = first['dump']
             n = dump['n']
             bnd = boundaries(dump)
+            cluster_bnd = set(bnd)
+            if any_slot and n > 1:
+                bnd = list(range(1, n))          # the property says "at any interior slots": also inside clusters, in front of attached slots
             mismatch = info is not None and (base['dir'] & 1) != (info['dir'] & 1)
             breaks = sorted(set(bnd[x % len(bnd)] for x in bsel)) if bnd else []
             if mismatch and breaks and not os.environ.get('C19_NO_EXCLUDE'):
@@ -280,7 +284,8 @@ def worker(ctx):
             rec.case(nontrivial_sig=json.dumps(case, sort_keys=True) if nt else None,
                      sample=dict(font=case.get('font', 'synthesised'), text=case['text'], dir=case['dir'], breaks=breaks, justifies=justs[:4]) if nt else None,
                      multi_line=nlines >= 2, justify_calls=len(justs), dir_mismatch=mismatch, dir_ge2=case['dir'] >= 2, with_font=case['ppm'] > 0, with_hinted_font=case['ppm'] < 0, sub_range=any(j['first'] >= 0 for j in justs),
-                     font_has_just_pass=bool(info and info['justpass']), font_line_end_flag=bool(info and info['flags'] & 1), negative_width=any(j['width'] < 0 for j in justs))
+                     font_has_just_pass=bool(info and info['justpass']), font_line_end_flag=bool(info and info['flags'] & 1), negative_width=any(j['width'] < 0 for j in justs),
+                     break_inside_a_cluster=any(b not in cluster_bnd for b in breaks))
         return t
 
     ctx.run_hypothesis(make, ctx.n(16000, 300000) // ctx.nworkers + 1, replay_fn=replay_case)
